@@ -159,10 +159,18 @@ def check_property(pid, tier, seed, shared=None):
         fn_info.append({'fn': fid, 'source': '%s:%d-%d' % (g.src_path, g.src_start, g.src_end), 'sha256_16': g.src_hash,
                         'edits': g.edits, 'smt_ms': ms, 'trusted': bool(g.spec.external), 'sliced': bool(g.spec.slice)})
     samples = []
-    for oid in sorted(mine)[:0] + sorted(mine, key=lambda x: (mine[x]['kind'] != 'ensures', x))[:6]:
+    seen_fn = set()
+    # one substantial clause per function, the longest first, so that a reader sees what obligations look like
+    for oid in sorted(mine, key=lambda x: -len(mine[x]['text'])):
         o = mine[oid]
-        samples.append({'obligation': oid, 'kind': o['kind'], 'clause': o['text'][:300], 'contract': o['origin'],
+        if o['fid'] in seen_fn or o['kind'] in ('safety', 'proof-block'):
+            continue
+        seen_fn.add(o['fid'])
+        samples.append({'obligation': oid, 'kind': o['kind'], 'clause': o['text'][:400], 'contract': o['origin'],
                         'status': 'failed' if oid in failed else 'discharged'})
+        if len(samples) >= 6:
+            break
+    lemmas = sorted(k.split('::')[-1] for k, v in fn_status.items() if v.get('mode') == 'proof' and v.get('ok'))
     j = res.get('json') or {}
     ev = {
         'property_id': pid, 'tier': tier, 'seed': seed, 'level': 'proof',
@@ -174,6 +182,7 @@ def check_property(pid, tier, seed, shared=None):
             'functions_under_contract': fn_info,
             'obligation_kinds': {k: len([1 for o in mine.values() if o['kind'] == k]) for k in sorted({o['kind'] for o in mine.values()})},
             'samples': samples,
+            'lemmas_proved': lemmas,
             'backend': 'Verus %s / Z3 (single-file mode)' % (j.get('verus', {}).get('version', '?')),
             'verus_summary': j.get('verification-results'),
             'smt_time_ms_total': j.get('times-ms', {}).get('smt', {}).get('total'),
